@@ -71,7 +71,7 @@ impl Plane3D {
             return None;
         }
         let t = (self.d - self.normal * ray.origin) / den;
-        if t < 0. {
+        if t <= 0. {
             None
         } else {
             // return
